@@ -220,6 +220,9 @@ class Gen(object):
         self.dir_a, self.dir_b = os.path.join(root, 'pa'), os.path.join(root, 'pb')
 
     def fn(self):
+        if self.rng.random() < 0.2:
+            # a RELATIVE file name travels as it is (client, server and the in-process call share the working directory)
+            return self.rng.choice(['x.py', 'sub/m.py', './edit.py', '../up.py', 'moda.py'])
         return os.path.join(self.rng.choice([self.dir_a, self.dir_b, self.root]), self.rng.choice(['x.py', 'edit.py', 'pkg_mod.py']))
 
     def configure(self):
@@ -435,8 +438,16 @@ class Remote(object):
             for fd in saved + (null,):
                 os.close(fd)
 
+    WRAPPED = {'assist': 3, 'location': 3, 'configure': 1, 'eval': 1}      # public client methods and their positional arity
+
     def call(self, req):
         try:
+            # well-formed requests go through the public client method (what an editor calls), every second time; requests with
+            # an arity the method itself would refuse, keyword forms and unknown names go through _call (the wire contract)
+            self.n_calls = getattr(self, 'n_calls', 0) + 1
+            if self.n_calls % 2 and not req.kwargs and (self.WRAPPED.get(req.name) == len(req.args)
+                                                           or req.name == 'lint' and len(req.args) in (2, 3)):
+                return ('ret', getattr(self.env, req.name)(*req.args))
             return ('ret', self.env._call(req.name, *req.args, **req.kwargs))
         except Exception as e:
             if type(e) is Exception and len(e.args) == 1:
